@@ -55,7 +55,7 @@ ENTRY = ["vmdk-desc", "vmdk-delta", "vmdk-mono", "vhdx-diff", "vhdx-path", "hdd"
 
 def plan(tier: str, seed: int) -> list[dict]:
     cases = []
-    reps = 14 if tier == "quick" else 140
+    reps = 14 if tier == "quick" else 400
     for ep in ENTRY:
         for r in range(reps):
             cases.append({"k": ep, "r": r, "fault": None})
